@@ -24,13 +24,6 @@ Definition st_of (d : dump) : st :=
      (list_to_map (d_services d)) (list_to_map (d_checks d)) (list_to_map (d_index d))
      (list_to_set (d_delay d)).
 
-Definition st_eqb (a b : st) : bool :=
-  bool_decide (kvs a = kvs b) && bool_decide (tombs a = tombs b) &&
-  bool_decide (sessions a = sessions b) && bool_decide (schecks a = schecks b) &&
-  bool_decide (queries a = queries b) && bool_decide (nodes a = nodes b) &&
-  bool_decide (services a = services b) && bool_decide (checks a = checks b) &&
-  bool_decide (index a = index b) && bool_decide (lockdelay a = lockdelay b).
-
 (* a KV result carries the value only for the read verbs; otherwise the implementation blanks it *)
 Definition kv_res_eqb (with_value : bool) (m e : kvent) : bool :=
   bool_decide (kv_flags m = kv_flags e) && bool_decide (kv_session m = kv_session e) &&
